@@ -243,7 +243,7 @@ class DataFrame:
     def slice(self, offset: int = 0, length: int = None) -> "DataFrame":
         self.materialize()
         if offset < 0:
-            offset = len(self._rows) + offset
+            offset = max(len(self._rows) + offset, 0)
         if length is None:
             return DataFrame(schema=self._schema, rows=self._rows[offset:])
         if length == 0:
